@@ -46,17 +46,18 @@ Proof.
 Qed.
 
 (* ... and the whole update then violates the property (DESIGN section 6): start 1 within
-   [1/2, 3], ref = 1/2, ref0 = 2, Newton step +9 (to 10): all three methods land on 1/2, i.e. move
+   [1/2, 3], ref = 1/2, ref0 = 2, Newton step +9 (to 10): scalar and wall land on 1/2, i.e. move
    opposite to the step; with only an upper bound 2, ref = -1, start 1/2 and step +4 nothing is
-   enforced and the output leaves the bounds (9/2) *)
+   enforced by any method and the output leaves the bounds (9/2) *)
 Lemma phys_update_cur_refuted :
   let p := mkpent 1 9 (Some (1#2)) (Some 3) (1#2) 2 in
   let p2 := mkpent (1#2) 4 None (Some 2) (-1) 0 in
-  (forall m, exists x, phys_update_cur m 1 [p] = [x] /\ x == 1#2 /\ x < p_x0 p /\ 0 < p_step p) /\
+  (forall m, m <> Vector -> exists x, phys_update_cur m 1 [p] = [x] /\ x == 1#2 /\ x < p_x0 p /\ 0 < p_step p) /\
   (forall m, exists x, phys_update_cur m 1 [p2] = [x] /\ x == 9#2 /\ ~ inb (p_lo p2) (p_hi p2) x).
 Proof.
   cbn zeta. split; intros m.
-  - destruct m; eexists; (split; [vm_compute; reflexivity|]); repeat split; vm_compute; reflexivity.
+  - intros Hm. destruct m; [contradiction| |];
+      eexists; (split; [vm_compute; reflexivity|]); repeat split; vm_compute; reflexivity.
   - destruct m; eexists; (split; [vm_compute; reflexivity|]); (split; [vm_compute; reflexivity|]);
       intros [_ B]; vm_compute in B; apply B; reflexivity.
 Qed.
